@@ -18,16 +18,19 @@ from .. import tlc, evidence, explore
 REPO = explore.REPO
 DEVV = ['4.3', '5.1', '10.0']
 STAB_MICRO = {1: '4.3.18', 2: '5.1.4', 3: '10.0.1'}
+HFV = ['4.2.17', '5.1.2']
 STATUS = ['SUCCESSFUL', 'FAILED', 'INPROGRESS', 'NOTSTARTED']
 
-# (NDev, StabAt, HasHf, NPr, NSt)
+# (NDev, StabAt, NHf, NPr, NSt)   NHf: number of hotfix branches (False/True = 0/1)
 DOMAIN = {
     'quick': [(3, 0, False, 3, 3), (3, 2, False, 3, 2), (2, 2, True, 3, 2), (2, 0, True, 3, 3),
-              (3, 3, True, 2, 4), (2, 1, False, 3, 3), (1, 1, True, 3, 4), (3, 0, False, 2, 4)],
+              (3, 3, True, 2, 4), (2, 1, False, 3, 3), (1, 1, True, 3, 4), (3, 0, False, 2, 4),
+              (2, 0, 2, 3, 2), (1, 1, 2, 3, 3)],
     'thorough': [(3, 0, False, 4, 2), (3, 2, False, 4, 2), (3, 1, False, 4, 2), (3, 3, False, 4, 2),
                  (2, 2, True, 4, 2), (2, 1, True, 4, 2), (3, 0, True, 4, 2), (3, 2, True, 3, 3),
                  (3, 0, False, 3, 4), (2, 0, True, 4, 3), (2, 2, False, 4, 3), (1, 1, True, 4, 4),
-                 (3, 1, True, 3, 3), (3, 3, True, 3, 3)],
+                 (3, 1, True, 3, 3), (3, 3, True, 3, 3), (2, 0, 2, 4, 2), (2, 2, 2, 4, 2), (1, 0, 2, 4, 3),
+                 (3, 2, 2, 3, 3)],
 }
 
 
@@ -70,8 +73,8 @@ def dests(ndev, stab, hf):
         if stab == i:
             out.append(('s', i))
         out.append(('d', i))
-    if hf:
-        out.append(('h', 0))
+    for k in range(int(hf)):
+        out.append(('h', k))
     return out
 
 
@@ -87,7 +90,7 @@ def bname(d):
         return 'development/' + DEVV[d[1] - 1]
     if d[0] == 's':
         return 'stabilization/' + STAB_MICRO[d[1]]
-    return 'hotfix/4.2.17'
+    return 'hotfix/' + HFV[d[1]]
 
 
 def qver(d):
@@ -95,7 +98,7 @@ def qver(d):
         return DEVV[d[1] - 1]
     if d[0] == 's':
         return STAB_MICRO[d[1]]
-    return '4.2.17.1'
+    return HFV[d[1]] + '.1'
 
 
 def below(u, v):
@@ -188,21 +191,22 @@ def _case_worker(args):
                 commits.append((p, t))
         main = [p for p in range(1, npr + 1) if D[dsts[p - 1] - 1][0] != 'h']
         hfq = [p for p in range(1, npr + 1) if D[dsts[p - 1] - 1][0] == 'h']
+        hfk = [[p for p in hfq if D[dsts[p - 1] - 1][1] == k] for k in (0, 1)]
         for x, exp in enumerate(ln['res']):
             statuses = {}
             y = x
             for c in commits:
                 statuses[c] = STATUS[y % nst]
                 y //= nst
-            k0, k1 = exp // 10, exp % 10
-            sel = set(main[:k0]) | set(hfq[:k1])
+            k0, k1, k2 = exp // 100, (exp // 10) % 10, exp % 10
+            sel = set(main[:k0]) | set(hfk[0][:k1]) | set(hfk[1][:k2])
             expmoved = {}
             for d in D:
                 on = [p for p in sorted(sel) if d in targets(D[dsts[p - 1] - 1], ndev)]
                 if on:
                     expmoved[bname(d)] = on[-1]
             n += 1
-            nontrivial.add((k0, k1, len(main), len(hfq)))
+            nontrivial.add((k0, k1, k2, len(main), len(hfk[0]), len(hfk[1])))
             try:
                 prs, moved = real_select(shape, dsts, statuses)
                 ok = set(prs) == sel and moved == expmoved
@@ -230,8 +234,8 @@ def _oracle(args):
     tag = 'qo_%d_%d_%d_%d_%d_%d' % (ndev, stab, int(hf), npr, nst, shard)
     cfg = os.path.join(scratch, tag + '.cfg')
     with open(cfg, 'w') as f:
-        f.write('SPECIFICATION Spec\nCONSTANTS\n NDev = %d\n StabAt = %d\n HasHf = %s\n NPr = %d\n NSt = %d\n'
-                % (ndev, stab, 'TRUE' if hf else 'FALSE', npr, nst))
+        f.write('SPECIFICATION Spec\nCONSTANTS\n NDev = %d\n StabAt = %d\n NHf = %d\n NPr = %d\n NSt = %d\n'
+                % (ndev, stab, int(hf), npr, nst))
     out = os.path.join(scratch, tag + '.ndjson')
     r = tlc.run_tlc('QueueOracle.tla', cfg, scratch, workers=1,
                     env={'OUT_FILE': out, 'SHARD': str(shard), 'NSHARD': str(nshard)}, timeout=3000)
@@ -277,13 +281,13 @@ def check(tier, seed):
         evidence.write('C05', tier, seed, 'model_checking', dict(
             states=cases, transitions=cases, traces_validated_against_impl=n,
             samples=[dict(shape=list(s), first_line=(ls[0] if ls else None)) if False else
-                     dict(shape=dict(NDev=s[0], StabAt=s[1], HasHf=s[2], NPr=s[3], NSt=s[4]),
+                     dict(shape=dict(NDev=s[0], StabAt=s[1], NHf=int(s[2]), NPr=s[3], NSt=s[4]),
                           dsts=ls[0]['dsts'], commits=ls[0]['m'], expected_vector_head=ls[0]['res'][:8])
                      for s, ls, _ in oracles[:3] if ls],
             evaluations=n, distinct_nontrivial=len(classes),
             rule='every (destination assignment, status assignment) of each shape; distinct = '
-                 '(main prefix length, hotfix prefix length, queue sizes) classes produced by the oracle',
-            shapes=[dict(NDev=s[0], StabAt=s[1], HasHf=s[2], NPr=s[3], NSt=s[4]) for s in shapes],
+                 '(main prefix length, hotfix prefix lengths, queue sizes) classes produced by the oracle',
+            shapes=[dict(NDev=s[0], StabAt=s[1], NHf=int(s[2]), NPr=s[3], NSt=s[4]) for s in shapes],
             oracle='spec/QueueOracle.tla evaluated by TLC (one ASSUME per shard)',
             disagreements=len(bad), exhaustive=True,
             explanation='states = cases enumerated and evaluated by TLC; each one executed on the real QueueCollection'),
